@@ -561,6 +561,12 @@ func (m *Manager) rotateWAL() error {
 		return fmt.Errorf("failed to create new WAL: %w", err)
 	}
 
+	// Continue the sequence numbering in the new WAL. The old WAL is marked
+	// as rotating, so no further append can be assigned a number from it.
+	if currentWAL != nil {
+		newWAL.UpdateNextSequence(currentWAL.GetNextSequence())
+	}
+
 	// Store the old WAL for proper closure
 	oldWAL := m.wal
 
